@@ -44,6 +44,8 @@ def run(chk: Check, proj: Project) -> None:
     s8_key_fields(chk, proj)
     s11_kind_flow(chk, proj, w)
     s12_served_iff_announced(chk, proj, w)
+    chk.borrow("S17", "a render that runs while ANOTHER thread is loading the class's js_file / css_file sees either 'not resolved yet' (and resolves) or the loaded text: the `resolved` flag is stored last - with the flag first, the second thread reads Component.js as None, caches nothing, and by the time the dependencies are collected the text is there, so the URL is announced and answers 404 (shared with C16-S4)",
+               lambda sub: __import__("djc_sa.rules.C16", fromlist=["x"]).s4(sub, proj, proj.mod("component_media")), only=lambda o: "resolved-is-last" in o.construct)
     from . import C06 as _C06
 
     chk.borrow("S15", "a script that could not be stored is not announced: an error of the cache backend while caching a script reaches the render (which then emits nothing) - a handler that logs and carries on lets the render announce a URL whose script was never stored, and the endpoint answers 404 for it (shared with C06-S3)",
